@@ -81,6 +81,10 @@ def classesOK (env : MEnv) : Bool :=
 /-- no class of the case stands for the scope mapping (T-rooted destinations) -/
 def noScope (env : MEnv) : Bool := env.flags.all (fun p => !p.2.contains "scope")
 
+/-- the classes of factory-made objects do not stand for the scope mapping -/
+def freshNotScope (env : MEnv) : Bool :=
+  ["dict", "list", "Obj", "tuple"].all (fun c => !env.flag c "scope")
+
 /-- path arguments are immediate values (never heap references) -/
 def argsScalar : List Step → Bool
   | [] => true
@@ -156,15 +160,10 @@ def buildTail (env : MEnv) (kind : String) (v : Val) : List Step → Heap → Op
           | _ => none
       else none
 
-/-- a value arg mode leaves alone: an immediate, or an existing object that is not an exact
-    list / dict / tuple / set / frozenset (those are *rebuilt* by `_ArgValuator.mode`) -/
-def valOK (h : Heap) : Val → Bool
-  | .ref a => decide (a < h.length) && !rebuilds h (.ref a)
-  | _ => true
-
 /-- the value denoted by the `val` argument -/
 def refVal (env : MEnv) (h : Heap) (target : Val) : ValSpec → Option Val
   | .lit v => some v
+  | .val v => some v
   | .path steps =>
     match matchesOf env h steps 0 target with
     | .ok [v] => some v
@@ -175,22 +174,20 @@ def refVal (env : MEnv) (h : Heap) (target : Val) : ValSpec → Option Val
 def valUnsupported (h : Heap) : ValSpec → Bool
   | .path s => hasStar s
   | .lit v => rebuilds h v
+  | .val _ => false
 
 /-- the steps of a value path are item / attribute / plain-segment steps -/
 def valWf : ValSpec → Bool
   | .path s => C01.wfSteps s
   | .lit _ => true
+  | .val _ => true
 
-/-- side condition under which the `missing` recursion is covered by the theorems: T-rooted
-    destination, immediate path arguments, and a value that arg mode leaves alone -/
-def missingOK (env : MEnv) (h : Heap) (target : Val) (sroot : Bool) (orig : List Step) (vs : ValSpec) :
-    Missing → Bool
+/-- side condition under which the `missing` recursion is covered by the theorems: immediate
+    path arguments (a heap reference used as a key could alias a freshly created object), and
+    the classes of the factory's objects are not the scope stand-in -/
+def missingOK (env : MEnv) (orig : List Step) : Missing → Bool
   | .none => true
-  | .factory _ =>
-    !sroot && noScope env && argsScalar orig &&
-      (match refVal env h target vs with
-       | some v => valOK h v
-       | none => true)
+  | .factory _ => argsScalar orig && freshNotScope env
 
 /-- **The property's prescription** for `assign(target, path, val, missing)`;
     `root` is the object the destination path starts from (the target, or the
@@ -293,7 +290,18 @@ def checkC11 (env : MEnv) (h : Heap) (target root : Val) (orig : List Step) (vs 
 def assignHandlerExcs : List String :=
   ["TypeError", "IndexError", "AttributeError", "RuntimeError", "ValueError", "NotImplementedError"]
 
+/-- in registry table `reg` the two virtual (duck) types carry the handler of `object` -/
+def virtualLikeObject (reg : List (String × String)) : Bool :=
+  match reg.find? (·.1 == "object") with
+  | some (_, ho) =>
+    ["_AbstractIterable", "_ObjStyleKeys"].all (fun v =>
+      match reg.find? (·.1 == v) with
+      | some (_, hv) => hv == ho
+      | none => true)
+  | none => false
+
 def WF (env : MEnv) : Bool :=
+  virtualLikeObject env.assignReg &&
   C01.WF env.t &&
   C01.dispatchOf env.t "x" == some ("star", []) &&
   C01.dispatchOf env.t "X" == some ("starstar", []) &&
@@ -310,7 +318,8 @@ def WF (env : MEnv) : Bool :=
     driver reports for every case whether it lies in the fragment the theorems cover -/
 def covered (env : MEnv) (h : Heap) (target : Val) (sroot : Bool) (orig : List Step) (vs : ValSpec)
     (missing : Missing) : Bool :=
+  let _ := target; let _ := sroot
   WF env && classesOK env && C01.wfSteps orig && valWf vs && !valUnsupported h vs &&
-    missingOK env h target sroot orig vs missing
+    missingOK env orig missing
 
 end Glom.C11
